@@ -678,9 +678,11 @@ class Polygon(Shape2D):
         )
         # Apply translational shift relative to the center of the
         # polygonal face relative to its centroid.
+        # The edge sum changes sign with the orientation of the vertices about the
+        # normal (the q = 0 branch does not): divide the orientation out.
         form_factor[~zero_q] = -np.sum(
             f_ns * 1j * np.exp(-1j * midpoints_dot_qs), axis=0
-        )
+        ) * np.sign(self.signed_area)
         form_factor *= density
         return form_factor
 
